@@ -174,5 +174,8 @@ def corpus():
         Marked('a'), Marked('b'), Marked('ab'), [Marked('ba'), Marked('b')], Marked('c'),
         # tuple keys that sort fine among each other, inserted in another order than the sorted one (next to the dicts above whose tuple
         # keys cannot be compared: whether two tuples compare depends on the values, not on their types)
+        # strings that fit the default ribbon (71) but not a narrow one (30-60), inside a container (the group around them is decided by
+        # the fitting predicate, which asks the string for its width under the ribbon in force)
+        ['k' * 50], {'key': 'v' * 45}, ('w' * 38, 1),
         {(2, 1): 'b', (1, 2): 'a', (1, 1): 'c'}, [{('b', 2): 0, ('a', 3): 1}], {(3,): 0, (1, 'x'): 1, (2, 5): 2},
     ] + _responses() + _dataclass_values()
